@@ -68,3 +68,14 @@ Fixpoint py_args_loop (ps : list (Z * string)) (seen : list (string * nat)) : li
       (if Nat.ltb 0 v then b +++ "_" +++ z_to_string (Z.of_nat (S v)) else b) :: py_args_loop r (incr_s seen b)
   end.
 Definition py_args (ps : list (Z * string)) : list string := py_args_loop ps [].
+
+(** ** how the two back-ends print a column's type: ktType.String / pyType.String,
+    with IsNull = not NotNull and IsArray copied from the compiler's column *)
+Definition kt_type_string (name : string) (is_array notnull : bool) : string :=
+  if is_array then "List<" +++ name +++ ">" else if negb notnull then name +++ "?" else name.
+Definition py_type_string (inner : string) (is_array notnull : bool) : string :=
+  let v := if is_array then "List[" +++ inner +++ "]" else inner in
+  if negb notnull then "Optional[" +++ v +++ "]" else v.
+(** what the emitted type says about nullability (what checks/c20.py reads) *)
+Definition kt_says_nullable (t : string) : bool := has_suffix t "?".
+Definition py_says_nullable (t : string) : bool := has_prefix t "Optional[".
